@@ -561,6 +561,10 @@ def _cmp_normalise(p: Poly):
 def b_le0(p: Poly) -> BoolT:
     if p.is_const():
         return b_const(p.const_value() <= 0)
+    if is_pos(p):
+        return b_const(False)        # syntactically positive (declared-positive atoms, positive coefficients)
+    if is_nonneg(p_neg(p)):
+        return b_const(True)
     return _mk_bool("le0", (_cmp_normalise(p),))
 
 
